@@ -692,8 +692,38 @@ inline int main_driver(int argc, char **argv, const char *prop, std::function<vo
 // poison-filled raw storage for one object
 template <class T>
 struct Slot {
+    // 32 fence bytes on either side of the object: a write just outside the object's footprint (e.g. a terminator
+    // stored one past an in-object array) is reported instead of silently hitting the harness' own bookkeeping
+    alignas(16) unsigned char pre[32];
     alignas(16) unsigned char mem[sizeof(T)];
+    unsigned char post[32];
     bool alive = false;
+    Slot()
+    {
+        memset(pre, 0xFE, sizeof pre);
+        memset(post, 0xFE, sizeof post);
+    }
+    // empty when intact; otherwise a description (and the fence is repaired so that one overrun is reported once)
+    std::string fence_damage()
+    {
+        std::string r;
+        for (size_t i = 0; i < sizeof post; ++i)
+            if (post[i] != 0xFE) {
+                r = "byte " + std::to_string(i) + " after the end of the object was overwritten";
+                break;
+            }
+        if (r.empty())
+            for (size_t i = sizeof pre; i-- > 0;)
+                if (pre[i] != 0xFE) {
+                    r = "byte " + std::to_string(sizeof pre - i) + " before the start of the object was overwritten";
+                    break;
+                }
+        if (!r.empty()) {
+            memset(pre, 0xFE, sizeof pre);
+            memset(post, 0xFE, sizeof post);
+        }
+        return r;
+    }
     T *obj() { return reinterpret_cast<T *>(mem); }
     const T *obj() const { return reinterpret_cast<const T *>(mem); }
     void poison() { memset(mem, 0xCD, sizeof mem); }
